@@ -1,6 +1,7 @@
 package main
 
 import (
+	_ "embed"
 	"fmt"
 	"go/ast"
 	"go/token"
@@ -179,7 +180,74 @@ func (p *Program) field(short, typ, name string) *types.Var {
 			return st.Field(i)
 		}
 	}
-	return nil
+	// Renamed?  The reference tree's field had a type no other field of the struct has
+	// (fieldhints.txt); when exactly one field of today's struct has that type and its name is not
+	// itself a reference name of the struct, it is that field under another name.
+	want, ok := fieldHints[pkgPath(short)+" "+typ+" "+name]
+	if !ok {
+		return nil
+	}
+	var found *types.Var
+	for i := 0; i < st.NumFields(); i++ {
+		f := st.Field(i)
+		if types.TypeString(f.Type(), nil) != want {
+			continue
+		}
+		if _, isRef := fieldHints[pkgPath(short)+" "+typ+" "+f.Name()]; isRef {
+			return nil
+		}
+		if found != nil {
+			return nil
+		}
+		found = f
+	}
+	return found
+}
+
+//go:embed fieldhints.txt
+var fieldHintsText string
+
+// fieldHints maps "pkgpath type field" of the reference tree to the field's type, for the fields
+// whose type is unique within their struct.
+var fieldHints = func() map[string]string {
+	m := map[string]string{}
+	for _, ln := range strings.Split(fieldHintsText, "\n") {
+		parts := strings.SplitN(ln, "\t", 2)
+		if len(parts) == 2 {
+			m[parts[0]] = parts[1]
+		}
+	}
+	return m
+}()
+
+// dumpFieldHints prints the table behind fieldHints for the loaded packages.
+func dumpFieldHints(p *Program) []string {
+	var out []string
+	for _, pk := range p.Pkgs {
+		sc := pk.Types.Scope()
+		for _, nm := range sc.Names() {
+			tn, ok := sc.Lookup(nm).(*types.TypeName)
+			if !ok {
+				continue
+			}
+			st, ok := tn.Type().Underlying().(*types.Struct)
+			if !ok {
+				continue
+			}
+			count := map[string]int{}
+			for i := 0; i < st.NumFields(); i++ {
+				count[types.TypeString(st.Field(i).Type(), nil)]++
+			}
+			for i := 0; i < st.NumFields(); i++ {
+				ts := types.TypeString(st.Field(i).Type(), nil)
+				if count[ts] == 1 {
+					out = append(out, pk.PkgPath+" "+nm+" "+st.Field(i).Name()+"\t"+ts)
+				}
+			}
+		}
+	}
+	sort.Strings(out)
+	return out
 }
 
 // fn returns the function pkg.name (recv == "") or the method recv.name declared in pkg
